@@ -60,6 +60,12 @@ CLAIMED.update({
          "Trusts: the denotation and the token-based record parser in sim/tsim/src/fmt_sim.rs; the compact formatter is checked for span fields not names (its documented design); JSON lifecycle records' span list is not judged (explicit-parent events).", "DESIGN.md 5 C13"),
 })
 
+CLAIMED.update({
+ "C20": ("time-sim", "deterministic simulation of the system clock: hook H3 puts SystemTime::now behind a seam, a seeded simulated clock (monotone traces: day sweeps, every-second boundary windows, sorted random instants incl. pre-1970 and beyond year 9999) drives the real fmt layer with its default timer; independent civil-from-days reference as oracle",
+         "Seeded exploration of clock traces: per run a chunk of consecutive days (4 instants/day), an every-second window around a year / leap-day / century / 400-year / epoch / year-1 / year-9999 boundary, or sorted random instants with boundary-hugging sub-second parts; every printed timestamp must equal the independent conversion (exact RFC 3339 text with truncated microseconds inside 0001..9999), and successive records must be non-decreasing. Quick covers about 35 M instants, thorough several hundred million (random day chunks: expected coverage of every day of 0001-9999, not a guaranteed enumeration). Sampling, not proof.",
+         "Trusts: the era/day-of-era calendar routine in sim/tsim/src/time_sim.rs (self-checked against a table of known dates at start-up); hook H3 replaces only the clock read, the formatting path is the shipped one.", "DESIGN.md 5 C20"),
+})
+
 NOT_BUILT = {
 }
 
